@@ -57,9 +57,26 @@ def main():
         cases.append((f"n={n} negative definite, start = sum of 3 eigenvectors", -np.arange(1.0, n + 1), True, 3))
         # complex Hermitian operator, REAL start vector
         cases.append((f"n={n} complex operator with a real start vector", np.arange(1.0, n + 1) * rng.choice([-1, 1], n), "realstart", None))
+        # real symmetric operator, COMPLEX start vector (the basis must keep the imaginary part)
+        cases.append((f"n={n} real operator with a complex start vector", np.arange(1.0, n + 1) * rng.choice([-1, 1], n), "cstart", None))
+    # operators whose product returns its operand (Identity._matmat): the candidate vector aliases a column of the basis
+    for n in (1, 6, 12):
+        v = rng.standard_normal(n)
+        inp = f"lanczos(Identity({n}), random real start vector, max_iters={n}, tol=1e-10), seed 14"
+        try:
+            Q, T, info = L.lanczos(cola.ops.Identity((n, n), np.float64), v.copy(), max_iters=n, tol=1e-10)
+            Qd, Td = np.asarray(Q.to_dense()), np.asarray(T.to_dense())
+        except Exception as e:
+            found(clause="no exception", input=inp, observed=f"{type(e).__name__}: {str(e)[:200]}", expected="a decomposition")
+        k = Qd.shape[1]
+        if np.abs(Qd.conj().T @ Qd - np.eye(k)).max() > 1e-7:
+            found(clause="Q has orthonormal columns", input=inp, observed=f"|Q^H Q - I| = {np.abs(Qd.conj().T @ Qd - np.eye(k)).max():.2e} ({k} columns)", expected="0")
+        if np.abs(Qd[:, 0] - v / np.linalg.norm(v)).max() > 1e-9 or np.abs(Td - Qd.conj().T @ Qd).max() > 1e-7:
+            found(clause="first column is v/||v|| and T = Q^H A Q", input=inp, observed=str(np.round(Td[:3, :3], 4).tolist()), expected="identity")
     for name, lam, cplx, nev in cases:
         realstart = cplx == "realstart"
-        cplx = bool(cplx)
+        cstart = cplx == "cstart"
+        cplx = bool(cplx) and not cstart
         n = len(lam)
         M, Qm = herm(np.asarray(lam, dtype=float), cplx)
         scale = 10.0 ** rng.integers(-3, 4)
@@ -67,14 +84,14 @@ def main():
             scale = 1e-12 if not cplx else 1e12            # the stopping rule is relative: tiny and huge operators behave alike
         M = M * scale
         if nev is None:
-            v = rng.standard_normal(n) + (1j * rng.standard_normal(n) if (cplx and not realstart) else 0)
+            v = rng.standard_normal(n) + (1j * rng.standard_normal(n) if ((cplx and not realstart) or cstart) else 0)
         else:
             v = Qm[:, :nev] @ (rng.standard_normal(nev) + 1.0)
         for mi in sorted({1, 2, max(1, n // 2), n, n + 5}):
             inp = f"lanczos(Hermitian {name}, {'complex' if cplx else 'real'}, scale {scale:g}, max_iters={mi}, tol=1e-10), seed 14"
             A = cola.SelfAdjoint(Dense(M.astype(np.complex128 if cplx else np.float64)))
             try:
-                Q, T, info = L.lanczos(A, v.real.astype(np.float64) if (realstart or not cplx) else v.astype(M.dtype), max_iters=mi, tol=1e-10)
+                Q, T, info = L.lanczos(A, v.astype(np.complex128) if cstart else (v.real.astype(np.float64) if (realstart or not cplx) else v.astype(M.dtype)), max_iters=mi, tol=1e-10)
             except Exception as e:
                 found(clause="no exception", input=inp, observed=f"{type(e).__name__}: {str(e)[:200]}", expected="a decomposition")
             Qd, Td = np.asarray(Q.to_dense()), np.asarray(T.to_dense())
@@ -106,7 +123,7 @@ def main():
                 if d > 1e-6 * max(1.0, np.abs(full).max()):
                     found(clause="when the Krylov space is exhausted the eigenvalues of T are eigenvalues of A", input=inp, observed=f"max distance {d:.2e}", expected="0")
             if mi in (n, n + 5):
-                vals, vecs, _ = L.lanczos_eigs(A, v.astype(M.dtype) if cplx else v.real.astype(np.float64), max_iters=mi, tol=1e-10)
+                vals, vecs, _ = L.lanczos_eigs(A, v.astype(np.complex128) if (cplx or cstart) else v.real.astype(np.float64), max_iters=mi, tol=1e-10)
                 vals, Vv = np.asarray(vals), np.asarray(vecs.to_dense())
                 if np.any(np.diff(np.real(vals)) < -1e-9 * max(1, np.abs(vals).max())):
                     found(clause="lanczos_eigs returns Ritz values in ascending order", input=inp, observed=str(np.round(vals, 4).tolist()), expected="ascending")
